@@ -321,7 +321,8 @@ func (g *G) HParam(contactLike bool) string {
 		}
 		if !g.Strict && g.R.Chance(1, 8) {
 			// not a number at all
-			val = g.R.Pick([]string{"36x", "x36", "3x6", "-1", "+60", "1.5", "0x10", "60s", "1e3", "3600.", "12-", "~5"})
+			val = g.R.Pick([]string{"36x", "x36", "3x6", "-1", "+60", "1.5", "0x10", "60s", "1e3", "3600.", "12-", "~5",
+				"18446744073709551616x", "99999999999999999999999.5", "184467440737095516150s", "4294967296x", "00000000000000000000000000x"})
 		}
 	case 4:
 		name = g.R.Pick([]string{"q", "Q"})
